@@ -106,18 +106,28 @@ class Fn:
         fail(e, 'unsupported expression %s' % ast.unparse(e))
 
     def cond(self, e):
+        """-> (positive test, negated?)  Negations are not emitted: the caller swaps
+        the branches, so `if a != b: X else: Y` and `if a == b: Y else: X` give the
+        same term."""
         if isinstance(e, ast.Compare) and len(e.ops) == 1:
             a, b = self.expr(e.left), self.expr(e.comparators[0])
             if isinstance(e.ops[0], ast.Eq):
-                return '(bytes_eqb %s %s)' % (a, b)
+                return '(bytes_eqb %s %s)' % (a, b), False
             if isinstance(e.ops[0], ast.NotEq):
-                return '(negb (bytes_eqb %s %s))' % (a, b)
+                return '(bytes_eqb %s %s)' % (a, b), True
         if isinstance(e, ast.UnaryOp) and isinstance(e.op, ast.Not):
-            return '(negb %s)' % self.cond(e.operand)
+            t, n = self.cond(e.operand)
+            return t, not n
         if (isinstance(e, ast.Call) and ast.unparse(e.func) == 'hmac.compare_digest'
                 and len(e.args) == 2 and not e.keywords):
-            return '(bytes_eqb %s %s)' % (self.expr(e.args[0]), self.expr(e.args[1]))
+            return '(bytes_eqb %s %s)' % (self.expr(e.args[0]), self.expr(e.args[1])), False
         fail(e, 'unsupported condition %s' % ast.unparse(e))
+
+    def ite(self, test, a, b):
+        t, neg = self.cond(test)
+        if neg:
+            a, b = b, a
+        return '(if %s then\n%s\nelse\n%s)' % (t, a, b)
 
     # ----------------------------------------------------------- statements
     def block(self, stmts, rest):
@@ -136,7 +146,7 @@ class Fn:
         if isinstance(s, ast.Assert):
             if ast.unparse(s.test) == 'isinstance(authkey, bytes)':
                 return self.block(tail, rest)                  # authkey : bytes in the model
-            return '(if %s then\n%s\nelse Raise AssertionError)' % (self.cond(s.test), self.block(tail, rest))
+            return self.ite(s.test, self.block(tail, rest), '(Raise AssertionError)')
         if isinstance(s, ast.Expr) and isinstance(s.value, ast.Call):
             c = s.value
             if ast.unparse(c.func) == 'connection.send_bytes' and len(c.args) == 1 and not c.keywords:
@@ -159,13 +169,12 @@ class Fn:
             self.locals.add(name)
             return '(let v_%s := %s in\n%s)' % (name, val, self.block(tail, rest))
         if isinstance(s, ast.If):
-            c = self.cond(s.test)
             saved = set(self.locals)
             a = self.block(s.body + tail, rest)
             self.locals = set(saved)
             b = self.block(s.orelse + tail, rest)
             self.locals = saved
-            return '(if %s then\n%s\nelse\n%s)' % (c, a, b)
+            return self.ite(s.test, a, b)
         if isinstance(s, ast.Raise):
             exc = s.exc
             if isinstance(exc, ast.Call):
